@@ -287,17 +287,24 @@ type sim struct {
 	log   []string
 	stats simStats
 	// per-step hooks
-	last        deliveryCtx
-	htMemo      map[string]int
+	last   deliveryCtx
+	htMemo map[string]int
 	// fieldProducers: field-level block cid -> nodes that produced it by a local write. A parentless
 	// field block produced independently on two nodes is the trigger of a known head-set defect.
 	fieldProducers map[string]map[int]bool
 	// lastLocal is the document-level commit produced by the local operation just executed ("" for deliveries).
-	lastLocal string
-	noDeletes bool
+	lastLocal   string
+	noDeletes   bool
 	afterChange func(s *sim, node int, docs []string) *hx.Failure
 	onMergeErr  func(s *sim, node int, msg hx.Msg, err error) *hx.Failure
 	docIDs      map[int]string // template -> docID
+	// lastUpdate: document -> the latest local update (node, field writes), replayed by "mirror" steps
+	lastUpdate map[string]lastUpdate
+}
+
+type lastUpdate struct {
+	node int
+	ops  []FieldOp
 }
 
 // deliveryCtx is the model's view of the receiver just before the last delivery; the
@@ -313,27 +320,31 @@ type deliveryCtx struct {
 }
 
 type simStats struct {
-	concurrentWrites bool // two nodes wrote the same field / doc without having merged each other's write
-	oooDelivery      bool // delivery out of causal order / of a non-head ancestor
-	dupDelivery      bool // delivery of an already merged commit
-	partialAncestors bool // delivered commit with ancestors partly merged
-	headsDiffHeights bool
-	tieEqualHeight   bool
-	nullInvolved     bool
-	deleteVsUpdate   bool
-	sameGenesis      bool
-	multiHeads       bool
-	mergeErrors      int
-	deliveries       int
-	localCommits     int
-	counterIncs      int
-	aeRounds         int
-	ttReads          int
-	ttQueries        int
-	ttNontrivial     int
-	ttMultiParent    int
-	ttCounter        int
-	ttRemote         int
+	concurrentWrites  bool // two nodes wrote the same field / doc without having merged each other's write
+	oooDelivery       bool // delivery out of causal order / of a non-head ancestor
+	dupDelivery       bool // delivery of an already merged commit
+	partialAncestors  bool // delivered commit with ancestors partly merged
+	headsDiffHeights  bool
+	tieEqualHeight    bool
+	nullInvolved      bool
+	deleteVsUpdate    bool
+	sameGenesis       bool
+	multiHeads        bool
+	mergeErrors       int
+	deliveries        int
+	localCommits      int
+	counterIncs       int
+	aeRounds          int
+	ttReads           int
+	ttQueries         int
+	ttNontrivial      int
+	ttMultiParent     int
+	ttCounter         int
+	ttRemote          int
+	sharedUpdateBlock bool // an update on one node produced a field-level block that another node's write produced too
+	mirrors           int  // updates that repeated another node's latest field writes
+	lateJoin          int  // deliveries to a node that had merged nothing of the document, of a commit with >= 4 ancestors
+	lateJoinMerged    int  // ... whose ancestors include a commit with two parents (both branches arrive in one merge)
 }
 
 func (s *sim) logf(format string, args ...any) {
@@ -404,6 +415,9 @@ func (s *sim) record(nodeIdx int, kind string, doc string, ops []FieldOp, msgs [
 					s.fieldProducers[k] = map[int]bool{}
 				}
 				s.fieldProducers[k][nodeIdx] = true
+				if kind == "update" && len(s.fieldProducers[k]) >= 2 {
+					s.stats.sharedUpdateBlock = true
+				}
 			}
 			if kind == "create" && (s.c.Cfg.Signing == "" || s.c.Cfg.SameSigner) {
 				// same initial document, unsigned or same signer: byte-identical genesis commits
@@ -518,6 +532,33 @@ func (s *sim) exec(st Step) *hx.Failure {
 	nodeIdx := st.Node % len(s.cl.Nodes)
 	n := s.cl.Nodes[nodeIdx]
 	switch st.Kind {
+	case "mirror":
+		// this node repeats the field writes of the latest update another node made to the document
+		// (same fields, same values): when both are at the same state of those fields the two nodes
+		// produce the identical field-level commits under different document-level commits
+		doc, ok := s.resolveDoc(st.Doc)
+		if !ok {
+			return nil
+		}
+		lu, ok := s.lastUpdate[doc]
+		if !ok || lu.node == nodeIdx {
+			s.logf("n%d mirror skipped (no update of the document by another node yet)", nodeIdx)
+			return nil
+		}
+		s.stats.mirrors++
+		return s.exec(Step{Kind: "update", Node: nodeIdx, Doc: st.Doc, Ops: lu.ops})
+	case "deliverfrom":
+		// the latest document-level notification produced by node st.Msg goes to this node
+		src := st.Msg % len(s.cl.Nodes)
+		if src < 0 {
+			src = -src
+		}
+		for k := len(s.cl.Msgs) - 1; k >= 0; k-- {
+			if m := s.cl.Msgs[k]; m.From == src && m.DocID != "" {
+				return s.deliver(m, nodeIdx)
+			}
+		}
+		return nil
 	case "create":
 		tpl := templates[st.Tpl%len(templates)]
 		doc := s.docIDs[st.Tpl%len(templates)]
@@ -583,6 +624,9 @@ func (s *sim) exec(st Step) *hx.Failure {
 		msgs := s.cl.Collect(nodeIdx)
 		if f := s.record(nodeIdx, st.Kind, doc, st.Ops, msgs); f != nil {
 			return f
+		}
+		if st.Kind == "update" {
+			s.lastUpdate[doc] = lastUpdate{node: nodeIdx, ops: st.Ops}
 		}
 		for _, m := range msgs {
 			if m.DocID != "" {
@@ -670,6 +714,18 @@ func (s *sim) deliver(msg hx.Msg, to int) *hx.Failure {
 					s.stats.oooDelivery = true // lower than an existing concurrent head
 				}
 			}
+		}
+	}
+	if c.doc != "" && nHave == 0 && !already && nAnc >= 4 {
+		s.stats.lateJoin++
+		for a := range c.anc {
+			if s.m.commits[a].doc == c.doc && len(s.parents(a)) > 1 {
+				s.stats.lateJoinMerged++
+				break
+			}
+		}
+		if len(s.parents(c.cid)) > 1 {
+			s.stats.lateJoinMerged++
 		}
 	}
 	s.last = deliveryCtx{valid: true, colMsg: c.doc == "", already: already, preMerged: map[string]bool{}}
@@ -816,7 +872,7 @@ func queryDoc(n *hx.Node, doc string) (map[string]any, int, hx.Result) {
 }
 
 func newSim(c Case) *sim {
-	s := &sim{c: c, docIDs: map[int]string{}}
+	s := &sim{c: c, docIDs: map[int]string{}, lastUpdate: map[string]lastUpdate{}}
 	s.cl = hx.NewCluster(c.Cfg.Nodes, sdl(c.Cfg), nodeOpts(c.Cfg))
 	s.m = newModel(c.Cfg.Nodes)
 	return s
